@@ -638,6 +638,10 @@ impl File {
         self.update_stamp(v, false)?;
         self.failed_runid = None;
         self.is_override = true;
+        // The recorded checksum describes bytes we generated, not the user's; if
+        // it were kept, regenerating the same bytes later would look "unchanged"
+        // to dependents that were built from the user's version.
+        self.csum = String::new();
         Ok(())
     }
 
